@@ -122,6 +122,7 @@ type readCtx struct {
 // is returned. blobData (uncorrupted) is used to resolve blob references.
 func readTable(bt *builtTable, data []byte, blobData []byte, rc readCtx, stopAtFirstFailure bool) []opResult {
 	ctx := context.Background()
+	maxLines := 4*bt.nPoints + 64
 	var out []opResult
 	var r *sstable.Reader
 	ro := sstable.ReaderOptions{
@@ -228,6 +229,14 @@ func readTable(bt *builtTable, data []byte, blobData []byte, rc readCtx, stopAtF
 				return lines, verr
 			}
 			lines = append(lines, l)
+			if len(lines) > maxLines {
+				// The iterator keeps producing entries (e.g. it cycles): a
+				// deterministic step bound, not a timer, ends the scan. The
+				// transcript is longer than any pristine one, so with a nil
+				// error this is judged as wrong data.
+				lines = append(lines, fmt.Sprintf("<runaway: more than %d entries>", maxLines))
+				return lines, nil
+			}
 		}
 		return lines, it.Error()
 	}
@@ -364,12 +373,18 @@ func readTable(bt *builtTable, data []byte, blobData []byte, rc readCtx, stopAtF
 			var s *keyspan.Span
 			for s, err = it.First(); s != nil; s, err = it.Next() {
 				lines = append(lines, "f "+spanLine(s))
+				if len(lines) > 1000 {
+					return append(lines, "<runaway>"), nil
+				}
 			}
 			if err != nil {
 				return lines, err
 			}
 			for s, err = it.Last(); s != nil; s, err = it.Prev() {
 				lines = append(lines, "b "+spanLine(s))
+				if len(lines) > 2000 {
+					return append(lines, "<runaway>"), nil
+				}
 			}
 			if err != nil {
 				return lines, err
